@@ -91,7 +91,13 @@ func c19Apply(e *Env, o c19Op) string {
 		if o.B == 1 {
 			exp = e.Height + 14400*(30+o.N%30)
 		}
-		return run(&storagetypes.MsgPostFile{Creator: a.String(), Merkle: c19Merkle(o.N), FileSize: 1000 + o.N%5000, ProofType: 0, MaxProofs: 3, Expires: exp, Note: `{"n":"` + fmt.Sprint(o.N) + `"}`})
+		// B == 2: a pay-once post signed with the upper-case spelling of the address (the owner string is kept as typed)
+		cr := a.String()
+		if o.B == 2 {
+			cr = strings.ToUpper(cr)
+			exp = e.Height + 14400*(30+o.N%30)
+		}
+		return run(&storagetypes.MsgPostFile{Creator: cr, Merkle: c19Merkle(o.N), FileSize: 1000 + o.N%5000, ProofType: 0, MaxProofs: 3, Expires: exp, Note: `{"n":"` + fmt.Sprint(o.N) + `"}`})
 	case "storage.DeleteFile":
 		fs := files()
 		if len(fs) == 0 {
@@ -141,7 +147,7 @@ func c19Apply(e *Env, o c19Op) string {
 	case "rns.Register":
 		return run(&rnstypes.MsgRegister{Creator: a.String(), Name: o.S + ".jkl", Years: 1 + o.N%3, Data: `{"k":"v"}`})
 	case "rns.AddRecord":
-		return run(&rnstypes.MsgAddRecord{Creator: a.String(), Name: o.S + ".jkl", Value: b.String(), Data: `{}`, Record: fmt.Sprintf("sub%d", o.N%4)})
+		return run(&rnstypes.MsgAddRecord{Creator: a.String(), Name: o.S + ".jkl", Value: b.String(), Data: `{}`, Record: c19RecordLabel(o.N)})
 	case "rns.List":
 		return run(&rnstypes.MsgList{Creator: a.String(), Name: o.S + ".jkl", Price: sdk.NewInt64Coin("ujkl", 1000+o.N)})
 	case "rns.Bid":
@@ -659,6 +665,7 @@ func c19RandomHistory(p *PRNG, k int) c19History {
 	add(c19Op{Op: "storage.BuyStorage", A: 4, N: p.I64n(100)})
 	add(c19Op{Op: "storage.PostFile", A: 4, N: 1 + p.I64n(50)})
 	add(c19Op{Op: "storage.PostFile", A: 5, B: 1, N: 60 + p.I64n(50)})
+	add(c19Op{Op: "storage.PostFile", A: 5, B: 2, N: 120 + p.I64n(50)})
 	add(c19Op{Op: "storage.AddProver", B: 1, N: p.I64n(4)})
 	add(c19Op{Op: "storage.SetAttest", B: 1, N: p.I64n(4)})
 	add(c19Op{Op: "storage.SetReport", B: 2, N: p.I64n(4)})
@@ -667,6 +674,10 @@ func c19RandomHistory(p *PRNG, k int) c19History {
 	add(c19Op{Op: "rns.Init", A: 1})
 	add(c19Op{Op: "rns.Register", A: 2, S: c19Name(k), N: p.I64n(3)})
 	add(c19Op{Op: "rns.AddRecord", A: 2, B: 3, S: c19Name(k), N: p.I64n(4)})
+	// the same label, as typed with an upper-case letter, twice: the handler compares the label as typed with the
+	// stored lower-cased ones, so both succeed and the name holds two records under one label
+	add(c19Op{Op: "rns.AddRecord", A: 2, B: 3, S: c19Name(k), N: 5})
+	add(c19Op{Op: "rns.AddRecord", A: 2, B: 1, S: c19Name(k), N: 5})
 	add(c19Op{Op: "rns.List", A: 2, S: c19Name(k), N: p.I64n(1000)})
 	add(c19Op{Op: "rns.Bid", A: 3, S: c19Name(k), N: p.I64n(1000)})
 	add(c19Op{Op: "rns.MakePrimary", A: 2, S: c19Name(k)})
@@ -701,7 +712,7 @@ func c19RandomHistory(p *PRNG, k int) c19History {
 		case 1:
 			add(c19Op{Op: "storage.BuyStorage", A: acct(), N: p.I64n(100)})
 		case 2, 3:
-			add(c19Op{Op: "storage.PostFile", A: acct(), B: p.Intn(2), N: 1 + p.I64n(200)})
+			add(c19Op{Op: "storage.PostFile", A: acct(), B: p.Intn(3), N: 1 + p.I64n(200)})
 		case 4, 5:
 			add(c19Op{Op: "storage.AddProver", B: 1 + p.Intn(3), N: p.I64n(8)})
 		case 6:
@@ -715,7 +726,7 @@ func c19RandomHistory(p *PRNG, k int) c19History {
 		case 10, 11:
 			add(c19Op{Op: "rns.Register", A: acct(), S: PickOne(p, names), N: p.I64n(3)})
 		case 12:
-			add(c19Op{Op: "rns.AddRecord", A: acct(), B: acct(), S: PickOne(p, names), N: p.I64n(4)})
+			add(c19Op{Op: "rns.AddRecord", A: acct(), B: acct(), S: PickOne(p, names), N: p.I64n(8)})
 		case 13:
 			add(c19Op{Op: "rns.List", A: acct(), S: PickOne(p, names), N: p.I64n(1000)})
 		case 14:
@@ -885,4 +896,12 @@ func runC19(r *RunCtx) error {
 		r.Case("kinds", fmt.Sprintf("Populated %s %s", c19Quote(m.Name), cList(byMod[m.Name])), map[string]interface{}{"module": m.Name, "populated": byMod[m.Name]})
 	}
 	return nil
+}
+
+// c19RecordLabel: labels 0..3 are lower-case, 4..7 carry an upper-case letter (stored lower-cased by AddRecord)
+func c19RecordLabel(n int64) string {
+	if n%8 >= 4 {
+		return fmt.Sprintf("Blog%d", n%4)
+	}
+	return fmt.Sprintf("sub%d", n%4)
 }
